@@ -49,6 +49,7 @@ type gen struct {
 	rnd *rand.Rand
 	// 0: plain first spelling of every literal class (systematic sweeps); 1: random spellings
 	rich    bool
+	zero    bool // every argument is the zero value of its type ('' 0 0.0 0s FALSE)
 	varKind map[string]reflect.Type
 }
 
@@ -146,6 +147,20 @@ func (x *gen) argText(t reflect.Type, vars map[string]reflect.Type) (string, boo
 			if vars[name] == t {
 				return name, true
 			}
+		}
+	}
+	if x.zero {
+		switch {
+		case t == stringType, t == ifaceType:
+			return "''", true
+		case t == int64Type:
+			return "0", true
+		case t == f64Type:
+			return "0.0", true
+		case t == boolType:
+			return "FALSE", true
+		case t == durType:
+			return "0s", true
 		}
 	}
 	switch {
